@@ -198,6 +198,18 @@ func RunG(s *scn.Scenario, opt Options) *Result {
 		x.shared = append(x.shared, ex)
 	}
 
+	if s.Cfg.NS && s.Cfg.NSRebind {
+		// an earlier request compiled these texts under the old bindings; then the
+		// client re-binds its prefixes in the SAME map object (its right) and the
+		// tasks compile the same texts again
+		for _, es := range s.Exprs {
+			e := x.begin(SoloBudget, 0)
+			compile(es.Text)
+			x.end(e)
+		}
+		nsMap["x"], nsMap["y"] = nsMap["y"], nsMap["x"]
+	}
+
 	// reference outcomes, before any concurrency exists
 	nt := len(s.Tasks)
 	g := &gstate{rng: scn.NewRng(s.SchedSeed, 0x5ced), done: make([]bool, nt), pend: make([]*lockReq, nt), inOp: make([]int64, nt),
